@@ -170,7 +170,7 @@ def r2(ctx):
                 r1_ = any(x == Sym("accept", "str") for x in a1)
                 guid = any(isinstance(x, C) and isinstance(x.v, str) and GUID in x.v for x in (a0 if k0 else a1))
                 sha = [x for x in o.effects if x.name == "hashlib.sha1"]
-                b64 = [x for x in o.effects if "encodebytes" in x.name or "b64encode" in x.name]
+                b64 = [x for x in o.effects if "encodebytes" in x.name or "b64encode" in x.name or "b2a_base64" in x.name]
                 okf = (k0 != k1) and (r0 != r1_) and (k0 != r0) and guid and len(sha) == 1 and bool(b64)
                 # base64 is case-sensitive: an operand that went through case folding (or any other lossy rewriting) makes
                 # different accept values compare equal
